@@ -223,6 +223,37 @@ theorem C05_string (ss : List String) :
   unfold stringEncode
   exact stringDecode_map _ _ (fun s hs => (mem_firstOcc s ss).mpr hs)
 
+/-- The same with a *given* string table (explicit `strings=`, a table read from a file, an encoding object reused for a
+second column): whatever the table, an accepted array decodes to itself … -/
+theorem C05_string_table (tbl ss : List String) (idx : List Nat)
+    (h : stringEncodeWith tbl ss = .ok idx) : stringDecode tbl idx = .ok ss := by
+  unfold stringEncodeWith at h
+  split at h
+  · cases h
+  · split at h
+    · rename_i hall
+      cases h
+      exact stringDecode_map _ _ (fun s hs => by
+        have := (List.all_eq_true.mp hall) s hs
+        simpa using this)
+    · cases h
+
+/-- … and an array containing a string the table lacks is rejected, never encoded as some other string. -/
+theorem C05_string_table_rejects (tbl ss : List String) (s : String) (hs : s ∈ ss) (hn : s ∉ tbl) :
+    ∃ e, stringEncodeWith tbl ss = .error e := by
+  unfold stringEncodeWith
+  split
+  · exact ⟨_, rfl⟩
+  · split
+    · rename_i hall
+      have := (List.all_eq_true.mp hall) s hs
+      exact absurd (by simpa using this) hn
+    · exact ⟨_, rfl⟩
+
+example : stringEncodeWith ["ALA", "GLY", "SER", "TRP"] ["ALA", "CYS", "SER"] = .error .valueError := by decide
+example : stringEncodeWith ["ALA", "GLY"] ["ALA", "ZN"] = .error .indexError := by decide
+example : stringEncodeWith ["b", "", "a"] ["a", "", "a", "b"] = .ok [2, 1, 2, 0] := by decide
+
 /-- Byte-array encoding (little endian two's complement) is lossless for every in-range array
 of every integer type. -/
 theorem C05_bytes (t : DType) (xs : List Int) (h : ∀ x ∈ xs, t.inRange x) :
